@@ -320,6 +320,7 @@ func main() {
 	fw.Main(fw.Check{
 		ID: "C19", Level: "model_checking",
 		Rule: "BFS over histories of {add alt0, add alt1, add wrong-PreGroup, add missing-parent, add duplicate-id, remove-last, fork-switch-remove-2, restart} " +
+			"plus the field dimension of valid additions {incoming GroupHeight = count, count-1, count+1, 2^40, 1; pre-filled WorkHeight/DismissHeight} whose model element is the plain addition, " +
 			"plus at most one accepted addition per history, applied in a state at BFS distance < 3 (quick) / 5 (thorough), from the ID dimension {Id = height key of height 0 / last / next / next+1, Id = last-pointer key, Id = count key, Id = genesis id, empty Id, 1-byte Id; otherwise valid} on the real group chain, " +
 			"depth 6 (quick) / 10 (thorough); each transition = fresh instance + replay + one op, merged on the canonical dump of store+side index+memory; " +
 			"a case is a (distinct implementation state, enabled op) pair; non-trivial = source state is not the post-boot state (at least one earlier op)",
